@@ -168,6 +168,7 @@ class Interp:
         self.summarised = 0
         self.trips = []         # (guard, trip term) of every counted DO loop
         self.int_divs = []      # (numerator, denominator) of every integer division evaluated
+        self.int_mods = []      # (a, p) of every integer MOD evaluated
         self.concrete_inputs = {}   # storage key / extent name -> concrete z3 value (replay mode)
         self.check_kinds = True          # a named kind in a literal must be declared before use
         self.allow_save_struct = False   # accept `type(x), save, target :: v` locals (PSyData handles)
@@ -1602,6 +1603,7 @@ class Interp:
     def _mod(self, x, y):
         self._nonzero(y)
         if x.sort() == I and y.sort() == I:
+            self.int_mods.append((x, y))
             return tmod(x, y)
         x, y = to_real(x), to_real(y)
         q = x / y
